@@ -127,6 +127,16 @@ def run(chk: core.Check, tier: str, seed: int) -> None:
         for doc in (obj, "abc", 7, 1.5, None, True, [obj], ["abc"]):
             recs.append(impl.rec_find(jp, q, doc, paths=True))
             recs.append(impl.rec_find(jp, "$[*]" + q[1:], [doc], paths=True))
+    # one compiled index / slice query shared by threads on arrays of DIFFERENT lengths, under the line-granularity scheduler of
+    # harness/sched.py (every single pre-emption point): whatever a selector remembers about the last array it saw is wrong for the next
+    from .c16 import preempt_records  # noqa: PLC0415
+    precs, n_sched, stuck = preempt_records(jp, rng, 60 if tier == "quick" else 100000, only_shared_prefix="$[")
+    for r in precs:
+        r.pop("threads", None)
+    recs += precs
+    chk.notes["preemption_schedules"] = n_sched
+    if stuck:
+        chk.violation({"clause": "a thread did not finish under a pre-emptive schedule"}, {"schedules_stuck": stuck})
     for r in recs:
         r_q = core.dec_text(r["q"])
         if r.get("locs"):
